@@ -39,6 +39,10 @@ def configs(tier, seed):
         # RELAY_CACHE_METRICS with no destination up: the daemon's self-metrics wait in the relay buffer and are stored
         # from inside the cacheSpaceAvailable -> resumeReceivingMetrics dispatch, i.e. re-entrantly during a drain
         cfgs.append(dict(name='max%d/fc%d/relaybuf-%s' % (mx, fc, sts[-1]), max=mx, fc=fc, strategy=sts[-1], pipeline=True, relaybuf=True))
+  # timesorted with a lag: series holding points on both sides of now - lag when they are drained
+  for mx in (3, 5):
+    for fc in (True, False):
+      cfgs.append(dict(name='max%d/fc%d/timesorted-lag30' % (mx, fc), max=mx, fc=fc, strategy='timesorted', lag=30))
   # the same limits configured through a per-instance section ([cache:b]) overriding other values in [cache]
   for (mx, fc, base) in ((3, True, dict(MAX_CACHE_SIZE=50, USE_FLOW_CONTROL=False)), (4, False, dict(MAX_CACHE_SIZE=4, USE_FLOW_CONTROL=True)),
                          (2, True, dict()), (5, False, dict(MAX_CACHE_SIZE='inf'))):
@@ -188,7 +192,7 @@ def run_config(cfg, res):
       over['USE_FLOW_CONTROL'] = cfg['fc']
     ns = boot.boot('carbon-cache', base, instance=cfg['instance'], instance_conf=over or {'MAX_CACHE_SIZE': cfg['max']})
   else:
-    conf = {'CACHE_WRITE_STRATEGY': cfg['strategy'], 'MAX_CACHE_SIZE': cfg['max'], 'USE_FLOW_CONTROL': cfg['fc']}
+    conf = {'CACHE_WRITE_STRATEGY': cfg['strategy'], 'MAX_CACHE_SIZE': cfg['max'], 'USE_FLOW_CONTROL': cfg['fc'], 'MIN_TIMESTAMP_LAG': cfg.get('lag', 0)}
     if cfg.get('relaybuf'):
       conf.update({'RELAY_CACHE_METRICS': True, 'DYNAMIC_ROUTER': True, 'RELAY_METHOD': 'consistent-hashing', 'DESTINATIONS': '127.0.0.1:2004:a'})
     ns = boot.boot('carbon-cache', conf)
@@ -204,6 +208,10 @@ def run_config(cfg, res):
   nh = 3 if cfg['tier'] == 'quick' else 8
   for i in range(nh):
     ops, ndr = gen_history(r, cfg['max'], tagged=bool(cfg.get('pipeline')))
+    if cfg.get('lag'):
+      # timestamps around the virtual now (1000000): older than the lag and younger
+      ops = [(o[0], o[1], (999900 if r.random() < 0.5 else 1000000 - r.choice([0, 5, 29])) + (o[2] - 100 if o[2] < 200 else 0)) if o[0] == 'store' else o for o in ops]
+      ndr += 2
     if cfg.get('relaybuf'):
       for _ in range(r.randint(1, 4)):
         ops.insert(r.randrange(0, len(ops) + 1), ('relaybuf',))
